@@ -101,7 +101,7 @@ def run(rep, wd, tier, seed):
     traces = [t for o in outs for t in o]
     # one long trace of consecutive format-4 blocks without a supplied fill: 2000 fills must not repeat
     ev = []
-    for _ in range(2000 if tier == 'thorough' else 600):
+    for _ in range(6000 if tier == 'thorough' else 1100):
         kind, out = call(lambda: pinblock.Iso4PinBlock('1234').to_bytes())
         ev.append(pev('iso4', '1234', supplied=False, kind=kind, out=out if kind == 'ok' else ()))
     traces.append({'tid': len(traces), 'events': ev, '_desc': '%d consecutive format 4 blocks without a supplied fill' % len(ev)})
